@@ -2,7 +2,7 @@
 from proto_engine import *
 
 MODULE = "Feox.Props.C05"
-THEOREMS = ['Feox.C05.partition', 'Feox.C05.extents_disjoint_in_bounds', 'Feox.C05.no_cross_damage', 'Feox.C05.empty_is_fresh', 'Feox.C05.no_leak', 'Feox.Proto.TiledBy.partition', 'Feox.Proto.TiledBy.recs']
+THEOREMS = ['Feox.C05.partition_after_any_history', 'Feox.C05.apply_part', 'Feox.C05.release_valid', 'Feox.C05.partition', 'Feox.C05.extents_disjoint_in_bounds', 'Feox.C05.no_cross_damage', 'Feox.C05.empty_is_fresh', 'Feox.C05.no_leak', 'Feox.Proto.TiledBy.partition', 'Feox.Proto.TiledBy.recs']
 
 
 def run(ctx):
